@@ -97,7 +97,9 @@ func (x *Exec) stdlib(s *State, in *ssa.Call, f *ssa.Function, args []Val) Val {
 		return scalar(r)
 	case "strings.ToLower":
 		return scalar(sfun("str_tolower", SStr, args[0].T))
-	case "strings.Join", "strings.ReplaceAll", "(*strings.Replacer).Replace", "fmt.Sprintf", "(*bytes.Buffer).String", "(*regexp.Regexp).ReplaceAllString":
+	case "(*regexp.Regexp).ReplaceAllString":
+		return scalar(sfun("re_replace", SStr, args[0].T, args[1].T, args[2].T))
+	case "strings.Join", "strings.ReplaceAll", "(*strings.Replacer).Replace", "fmt.Sprintf", "(*bytes.Buffer).String":
 		return x.freshVal(s, "str", types.Typ[types.String])
 	case "strings.NewReplacer", "hash/fnv.New64a":
 		r := x.alloc(s, "obj")
@@ -138,7 +140,7 @@ func (x *Exec) stdlib(s *State, in *ssa.Call, f *ssa.Function, args []Val) Val {
 		}
 		return r
 	case "(*regexp.Regexp).MatchString":
-		return scalar(sfun("regexp.Match_", SBool, args[0].T, args[1].T))
+		return scalar(sfun("re_match", SBool, args[0].T, args[1].T))
 	case "(*regexp.Regexp).NumSubexp":
 		r := x.define(s, "nsub", sfun("regexp.NumSubexp_", x.intSort(), args[0].T))
 		s.assume(And(x.le(x.ilit(0), r), x.le(r, x.ilit(1<<20))))
